@@ -12,6 +12,8 @@
 //!                      a machine-computed `class` used to match known findings,
 //!   * coverage counts and samples.
 
+pub mod sched;
+
 use std::collections::{BTreeMap, BTreeSet};
 use std::io::{BufRead, BufReader, Write};
 use std::process::{Child, ChildStdin, ChildStdout, Command, Stdio};
